@@ -6,6 +6,7 @@ The model is Model/Codec.lean (mirrors src/network/compression.rs after the `fix
 replaced `bitfield_rle::decode` by the checked `rle_decode`, plus the `bitfield-rle` encoder).
 -/
 import GgrsModel.Model.Inventory
+import GgrsModel.Model.Sites.Compression
 import GgrsModel.Proofs.Delta
 
 namespace Ggrs.Codec
